@@ -175,7 +175,8 @@ class Ref:
         self.tensors = tm.qtn_tensors(tn)
         self.dims = [int(tn.ind_size(i)) for i in self.inds]
         scale = 10.0 ** float(getattr(tn, "exponent", 0.0) or 0.0)
-        self.psi = np.asarray(tm.np_dense(self.tensors, self.inds)).reshape(self.dims) * scale
+        self.psi0 = np.asarray(tm.np_dense(self.tensors, self.inds)).reshape(self.dims)  # the tensors alone
+        self.psi = self.psi0 * scale
         self.n2 = complex(np.vdot(self.psi, self.psi))
 
     def idx(self, where):
@@ -230,12 +231,14 @@ def rand_op(rng, ref, where):
     return G, kind
 
 
-def close(a, b, scale=1.0):
+def close(a, b, scale=1.0, floor=1.0):
+    """|a - b| <= TOL * max(floor, scale, max|b|).  floor = 1 (absolute below magnitude 1) except for states whose
+    natural magnitude is below 1 (a negative `exponent`), where the caller passes that magnitude"""
     a = np.asarray(a, dtype=complex)
     b = np.asarray(b, dtype=complex)
     if a.shape != b.shape:
         return False
-    return bool(np.all(np.abs(a - b) <= TOL * max(1.0, scale, float(np.max(np.abs(b))) if b.size else 1.0)))
+    return bool(np.all(np.abs(a - b) <= TOL * max(floor, scale, float(np.max(np.abs(b))) if b.size else 1.0)))
 
 
 def jsonable(x):
@@ -245,6 +248,7 @@ def jsonable(x):
 
 def state_desc(kind, ref, extra=None):
     d = {"kind": kind, "sites": [str(s) for s in ref.sites], "dims": ref.dims,
+         "exponent": float(getattr(ref.tn, "exponent", 0.0) or 0.0),  # the state is 10**exponent x its tensors
          "tensors": [[list(i), list(np.asarray(a).shape), jsonable(a)] for i, a in ref.tensors]}
     if extra:
         d.update(extra)
@@ -415,14 +419,18 @@ class Checker:
         raise_key(name, exc) may return a precise violation key for an exception class"""
         ctx = self.ctx
         ref = ref or self.ref
-        for name, kind, thunk in routes:
+        for name, kind, thunk, *rest_ in routes:
             base = name.split("[")[0]
+            self.kopts = rest_[0] if rest_ else None  # option class that goes into the violation key (cube routes)
             key_case = (self.sdesc.get("id"), [str(s) for s in where], name)
             ctx.count(key_case, len(where) < len(ref.sites) and not np.allclose(G, G.conj().T))
             ctx.bump("route:" + base)
             ROUTES.add(name)
             replay = {"state": self.sdesc, "where": [str(s) for s in where], "route": name,
                       "G": jsonable(G), "G_shape": list(G.shape)}
+            if ref is not self.ref:  # gauged copy: tensors after gauge_all_simple_ (+ its own exponent); the state
+                # the route describes is that network with the returned gauges inserted on every bond
+                replay["gauged_network"] = {"exponent": self.expo(ref), "how": "state.copy().gauge_all_simple_(5, 1e-10, gauges=gauges)"}
             import time as _t
             _t0 = _t.time()
             try:
@@ -433,17 +441,52 @@ class Checker:
                 key = raise_key(name, e) if raise_key else None
                 if key is None and name == "partial_trace_exact[tensor]" and isinstance(e, AttributeError) and "multiply_" in str(e):
                     key = "tnag.partial_trace_exact:get_tensor_normalized:AttributeError"
-                ctx.violation(key or f"{base}:raised:{type(e).__name__}",
+                ctx.violation(key or f"{self.kp(base, ref)}:raised:{type(e).__name__}",
                               f"{name} raised {type(e).__name__}: {str(e)[:160]} on {self.family} where={where}", replay)
                 continue
             try:
                 self.compare(name, kind, res, where, G, exact, ref, replay)
             except Exception as e:
-                ctx.violation(f"{base}:malformed", f"{name} returned a malformed result: {type(e).__name__}: {str(e)[:160]}", replay)
+                ctx.violation(f"{self.kp(base, ref)}:malformed", f"{name} returned a malformed result: {type(e).__name__}: {str(e)[:160]}", replay)
+
+    kopts = None
+
+    @staticmethod
+    def expo(ref):
+        return float(getattr(ref.tn, "exponent", 0.0) or 0.0)
+
+    def kp(self, base, ref):
+        """violation-key prefix = call site + input class: the route, for the option-cube routes the option class
+        (normalisation mode / backend / combine), and the scale representation when the state carries an exponent"""
+        k = base if self.kopts is None else f"{base}[{self.kopts}]"
+        return k + (":scale=exponent" if self.expo(ref) != 0.0 else "")
+
+    @staticmethod
+    def nz_label(name, k0):
+        """the normalisation mode requested (from the route's option string), else True / False from the kind"""
+        import re as _re
+
+        m = _re.search(r"normalized=([A-Za-z]+)", name)
+        return m.group(1) if m else str(k0.endswith("_n"))
+
+    def scale_tag(self, got, want, ref, unnormalised):
+        """classify a wrong value on a state that holds (part of) its scale in `exponent`: off by exactly
+        10**(+-2*exponent)?  Returns (tag, key) or None"""
+        x = self.expo(ref)
+        if x == 0.0:
+            return None
+        f = 10.0 ** (2 * x)
+        sc = float(np.max(np.abs(np.asarray(want)))) if np.asarray(want).size else 1.0
+        if close(np.asarray(got) * f, want, sc):
+            return "exponent_ignored"
+        if close(np.asarray(got) / f, want, sc):
+            return "exponent_counted_twice"
+        return None
 
     def compare(self, name, kind, res, where, G, exact, ref, replay):
         ctx = self.ctx
         base = name.split("[")[0]
+        kp = self.kp(base, ref)
         tn = ref.tn
         n2 = ref.n2
         k0 = kind.split(":")[0]
@@ -452,57 +495,93 @@ class Checker:
             res, norm_val = res
             k0 = k0[: -len("+norm")]
         if norm_val is not None:
-            if not close(norm_val, n2, abs(n2)):
-                ctx.violation(f"{base}:norm", f"{name}: returned norm factor {complex(norm_val)} != <psi|psi> = {n2}", replay)
+            if not close(norm_val, n2, abs(n2), floor=min(1.0, abs(n2))):
+                st = self.scale_tag(norm_val, n2, ref, True)
+                ctx.violation(f"{kp}:norm" if st is None else f"{base}:scale=exponent:norm:{st}",
+                              f"{name}: returned norm factor {complex(norm_val)} != <psi|psi> = {n2}"
+                              + (f" ({st}, exponent={self.expo(ref):.4g})" if st else ""), replay)
             elif exact is not None and ref is self.ref:
                 self.snap(exact["norms"], [norm_val])
+        # natural magnitude of an unnormalised result: absolute comparison below 1 is only meaningful for states of
+        # magnitude >= 1, so a state that is small (negative exponent) is compared relative to its own magnitude
+        fl_u = min(1.0, abs(n2) * max(1.0, float(np.max(np.abs(G))))) if self.expo(ref) != 0.0 else 1.0
         if k0 in ("rdm_u", "rdm_n"):
             M = to_matrix(res, kind, tn, where)
             want = ref.rho(where)
             if k0 == "rdm_n":
                 want = want / np.trace(want)
-            ok = close(M, want)
-            herm = close(M, M.conj().T)
-            tr_ok = close(np.trace(M), np.trace(want))
+            fl = fl_u if k0 == "rdm_u" else 1.0
+            ok = close(M, want, floor=fl)
+            herm = close(M, M.conj().T, floor=fl)
+            tr_ok = close(np.trace(M), np.trace(want), floor=fl)
             if not ok:
-                tag = "order_or_transpose" if (close(M, want.T) or self.is_site_permutation(M, ref, where, k0 == "rdm_n")) else "value"
-                ctx.violation(f"{base}:rdm:{tag}",
+                tag = "order_or_transpose" if (close(M, want.T, floor=fl) or self.is_site_permutation(M, ref, where, k0 == "rdm_n")) else "value"
+                key = f"{kp}:rdm:{tag}"
+                if tag == "value":
+                    raw = ref.rho(where)
+                    if self.kopts is not None and k0 == "rdm_u" and close(M, raw / np.trace(raw)):
+                        key = f"{kp}:rdm:normalised_although_unnormalised_requested"
+                    elif self.kopts is not None and k0 == "rdm_n" and close(M, raw, floor=fl_u):
+                        key = f"{kp}:rdm:unnormalised_although_normalised_requested"
+                    else:
+                        st = self.scale_tag(M, want, ref, k0 == "rdm_u")
+                        if st is not None:
+                            # input class: scale held in `exponent`, unnormalised result requested (any backend)
+                            key = f"{base}:scale=exponent:rdm:{st}:normalized={k0 == 'rdm_n'}"
+                    tag = key.split(":rdm:")[1]
+                ctx.violation(key,
                               f"{name}: reduced density matrix differs from the dense one ({tag}; hermitian={herm}, trace_ok={tr_ok}) "
                               f"on {self.family} where={where}", {**replay, "got": jsonable(M), "want": jsonable(want)})
             elif k0 == "rdm_u" and exact is not None and ref is self.ref:
                 self.snap_list(exact["rdms"], M)
         elif k0 in ("exp_u", "exp_n"):
-            want = ref.expec(G, where)
-            if k0 == "exp_n":
-                want = want / n2
+            raw = ref.expec(G, where)
+            want = raw / n2 if k0 == "exp_n" else raw
+            fl = fl_u if k0 == "exp_u" else 1.0
             v = complex(np.asarray(res).reshape(-1)[0]) if np.asarray(res).size == 1 else None
             if v is None:
                 raise ValueError(f"expectation is not a scalar: shape {np.asarray(res).shape}")
-            if not close(v, want, abs(want)):
+            if not close(v, want, abs(want), floor=fl):
                 den = n2 if k0 == "exp_n" else 1.0
                 alt = ref.expec(np.asarray(G).T, where) / den
-                tag = "transposed_operator" if close(v, alt, abs(alt)) else "value"
+                tag = "transposed_operator" if close(v, alt, abs(alt), floor=fl) else "value"
                 if tag == "value" and len(where) >= 2:
                     for perm in itertools.permutations(where):
-                        if perm != tuple(where) and close(v, ref.expec(G, perm) / den, abs(want)):
+                        if perm != tuple(where) and close(v, ref.expec(G, perm) / den, abs(want), floor=fl):
                             tag = "operator_site_order"
                             break
-                ctx.violation(f"{base}:expectation:{tag}",
+                key = f"{kp}:expectation:{tag}"
+                if tag == "value":
+                    # which normalisation did the route apply?  (N != 1 for every state drawn)
+                    if self.kopts is not None and k0 == "exp_u" and close(v, raw / n2, abs(raw / n2)):
+                        tag = "normalised_although_unnormalised_requested"
+                        key = f"{kp}:expectation:{tag}"
+                    elif self.kopts is not None and k0 == "exp_n" and close(v, raw, abs(raw), floor=fl_u):
+                        tag = "unnormalised_although_normalised_requested"
+                        key = f"{kp}:expectation:{tag}"
+                    else:
+                        st = self.scale_tag(v, want, ref, k0 == "exp_u")
+                        if st is not None:
+                            tag = st
+                            # input class: scale held in `exponent` x normalisation requested (any backend / combine)
+                            key = f"{base}:scale=exponent:expectation:{st}:normalized={self.nz_label(name, k0)}"
+                ctx.violation(key,
                               f"{name}: got {v}, dense <psi|O|psi>{'/<psi|psi>' if k0 == 'exp_n' else ''} = {want} ({tag}) "
-                              f"on {self.family} where={where}", {**replay, "got": [v.real, v.imag], "want": [want.real, want.imag]})
+                              f"on {self.family} where={where}" + (f", exponent={self.expo(ref):.4g}" if self.expo(ref) else ""),
+                              {**replay, "got": [v.real, v.imag], "want": [want.real, want.imag]})
             elif k0 == "exp_u" and exact is not None and ref is self.ref:
                 self.snap(exact["exps"], [v])
         elif k0 == "norm":
             v = complex(np.asarray(res).reshape(-1)[0])
             if not close(v, n2, abs(n2)):
-                ctx.violation(f"{base}:norm", f"{name}: got {v}, <psi|psi> = {n2}", replay)
+                ctx.violation(f"{kp}:norm", f"{name}: got {v}, <psi|psi> = {n2}", replay)
             elif exact is not None and ref is self.ref:
                 self.snap(exact["norms"], [v])
         elif k0 == "norm_sqrt":
             v = complex(np.asarray(res).reshape(-1)[0])
             want = abs(n2) ** 0.5
             if not close(v, want, want):
-                ctx.violation(f"{base}:norm", f"{name}: got {v}, sqrt<psi|psi> = {want}", replay)
+                ctx.violation(f"{kp}:norm", f"{name}: got {v}, sqrt<psi|psi> = {want}", replay)
         elif k0 == "unit":
             v = complex(np.asarray(res).reshape(-1)[0])
             if not close(v, 1.0):
@@ -539,6 +618,86 @@ class Checker:
 
 
 # ----------------------------------------------------------------------------------
+# option cube.  Every API of the cluster / loop-expansion families x EVERY documented normalisation mode x contraction
+# backend (exact / compressed with an untruncating cap) x combine x gauges (none / simple-update gauges), on states
+# whose overall scale is held in the tensors, in `exponent`, or in both.  A route tuple carries a 4th element: the
+# option class that goes into the violation key.
+
+NZ_GLOOP = (True, False, "prod", "local", "separate")
+
+
+def cube_routes(tn, G, where, nsites, allsites, gauges=None, ring=False, opt="greedy"):
+    big = nsites + 1
+    gk = {} if gauges is None else {"gauges": gauges}
+    gd = {} if gauges is None else gauges  # the loop expansions take a dict ({}: no bond is gauged)
+    gs = "" if gauges is None else ",gauges"
+    gl = [tuple(allsites)]
+    R = []
+
+    def add(api, opts, kind, thunk):
+        R.append((f"{api}[{opts}{gs}]", kind, thunk, opts))
+
+    def ek(nz):
+        return "exp_u" if nz is False else "exp_n"
+
+    # -- cluster family: normalized x backend ------------------------------------------------------------------------
+    for nz in (True, False):
+        for mb in (None, 64):
+            o = f"normalized={nz},max_bond={'int' if mb else None}"
+            co = dict(cutoff=0.0) if mb else {}
+            add("local_expectation_cluster", o, ek(nz), lambda nz=nz, mb=mb, co=co: tn.local_expectation_cluster(
+                G, where, normalized=nz, max_distance=big, max_bond=mb, optimize=opt, **co, **gk))
+            add("compute_local_expectation_cluster", o, ek(nz), lambda nz=nz, mb=mb, co=co: tn.compute_local_expectation_cluster(
+                {where: G}, normalized=nz, max_distance=big, max_bond=mb, optimize=opt, return_all=True, **co, **gk)[where])
+    for nz, kind in ((True, "rdm_n"), (False, "rdm_u"), ("return", "rdm_u+norm")):
+        add("partial_trace_cluster", f"normalized={nz}", kind, lambda nz=nz: tn.partial_trace_cluster(
+            where, normalized=nz, max_distance=big, optimize=opt, **gk))
+    # -- generalized-loop expansion, one loop = the whole network: combine x normalized -----------------------------------
+    for combine in ("prod", "sum"):
+        for nz in NZ_GLOOP:
+            o = f"combine={combine},normalized={nz}"
+            add("local_expectation_gloop_expand", o, ek(nz), lambda nz=nz, combine=combine: tn.local_expectation_gloop_expand(
+                G, where, gloops=gl, gauges=gd, combine=combine, normalized=nz, autoreduce=False, optimize=opt))
+            add("compute_local_expectation_gloop_expand", o, ek(nz), lambda nz=nz, combine=combine: tn.compute_local_expectation_gloop_expand(
+                {where: G}, gloops=gl, gauges=gd, combine=combine, normalized=nz, autoreduce=False, optimize=opt, return_all=True)[where])
+        add("compute_local_expectation_gloop_expand", f"combine={combine},normalized=global", "exp_n",
+            lambda combine=combine: tn.compute_local_expectation_gloop_expand(
+                {where: G}, gloops=gl, gauges=gd, combine=combine, normalized="global", autoreduce=False, optimize=opt))
+    # -- simple-loop expansion on a ring (the one loop is the ring) -----------------------------------------------------
+    if ring:
+        for combine in ("prod", "sum"):
+            for nz in NZ_GLOOP:
+                o = f"combine={combine},normalized={nz}"
+                add("local_expectation_sloop_expand", o, ek(nz), lambda nz=nz, combine=combine: tn.local_expectation_sloop_expand(
+                    G, where, sloops=nsites, combine=combine, normalized=nz, autoreduce=False, optimize=opt, **gk))
+                add("compute_local_expectation_sloop_expand", o, ek(nz), lambda nz=nz, combine=combine: tn.compute_local_expectation_sloop_expand(
+                    {where: G}, sloops=nsites, combine=combine, normalized=nz, autoreduce=False, optimize=opt, **gk))
+    return R
+
+
+def scale_variants(rng, tn, quick, sid):
+    """the same family of state with its overall scale held differently: [(label, network, integer exponent or
+    None)].  `exponent` is part of the state: to_dense() / norm() / the exact routes include 10**exponent.
+    "exponent_int": integer tensors + a hand-set integer exponent (exactly representable -> goes to Coq too)."""
+    out = [("tensors", tn, None)]
+    a = tn.copy()
+    a.multiply_(10.0 ** rng.uniform(0.5, 2.5))
+    a.equalize_norms_(1.0)  # every tensor has norm 1, the scale sits in a (large) positive exponent
+    b = tn.copy()
+    b.multiply_each_(10.0 ** -rng.uniform(0.6, 1.2))
+    b.equalize_norms_(1.0)
+    if b.exponent >= 0:  # any exponent describes a valid state: force a negative one
+        b.exponent = -rng.uniform(0.3, 1.0)
+    c = tn.copy()
+    c.exponent = float(rng.choice([1, 2]))  # tensors NOT normalised and exponent != 0: scale in both places
+    fl = [("exponent_pos", a, None), ("exponent_neg", b, None)]
+    if quick:
+        fl = [fl[sum(map(ord, sid)) % 2]]
+    return out + fl + [("exponent_int", c, int(c.exponent))]
+
+
+
+# ----------------------------------------------------------------------------------
 # Coq case emission
 
 
@@ -570,24 +729,29 @@ def item_lits(ref, where, exact):
     return w, rd, ex
 
 
-def coq_case(ref, where, exact, predensified=False):
-    """Coq bool: model rdm / norm / expectations on dense(state tensors) == implementation values (one site tuple)"""
-    dl, tl, namer = tm.net_literal([(tuple(ref.inds), ref.psi)] if predensified else ref.tensors)
+def coq_case(ref, where, exact, predensified=False, scale_exp=None):
+    """Coq bool: model rdm / norm / expectations on dense(state tensors) == implementation values (one site tuple).
+    scale_exp = k: the state is 10^k x its tensors, the model's values on the tensors are multiplied by (10^k)^2"""
+    dl, tl, namer = tm.net_literal([(tuple(ref.inds), ref.psi0)] if predensified else ref.tensors)
     outs = tm.nlist([namer(i) for i in ref.inds])
     w, rd, ex = item_lits(ref, where, exact)
     nm = glist(distinct([[v] for v in exact["norms"]]))
-    return f"check_where {dl} {tl} {outs} {w} {rd} {nm} {ex}"
+    if scale_exp is None:
+        return f"check_where {dl} {tl} {outs} {w} {rd} {nm} {ex}"
+    return f"check_where_scaled ({int(scale_exp)})%Z {dl} {tl} {outs} {w} {rd} {nm} {ex}"
 
 
-def coq_state_case(ref, norms, items, predensified=False):
+def coq_state_case(ref, norms, items, predensified=False, scale_exp=None):
     """one case per state (the dense state is evaluated once): items = [(where, exact)].  predensified: the state
     is handed to Coq as ONE tensor (numpy einsum of the dumped tensors) instead of the network"""
-    tensors = [(tuple(ref.inds), ref.psi)] if predensified else ref.tensors
+    tensors = [(tuple(ref.inds), ref.psi0)] if predensified else ref.tensors
     dl, tl, namer = tm.net_literal(tensors)
     outs = tm.nlist([namer(i) for i in ref.inds])
     nm = glist(distinct([[v] for v in norms]))
     its = "[" + "; ".join("(%s, %s, %s)" % item_lits(ref, w, ex) for w, ex in items) + "]"
-    return f"check_state {dl} {tl} {outs} {nm} {its}"
+    if scale_exp is None:
+        return f"check_state {dl} {tl} {outs} {nm} {its}"
+    return f"check_state_scaled ({int(scale_exp)})%Z {dl} {tl} {outs} {nm} {its}"
 
 
 def peps_routes(p, G, where, opt="greedy"):
@@ -688,13 +852,16 @@ def coq_cost(ref):
 
 
 def run_state(ctx, cases, kind, tn, sid, extra_routes=None, ring=False, n_where=3, n_ops=2, raise_key=None,
-              where_list=None, generic=True, gauged=True, max_k=3, coq_budget=None, only_exact=False):
-    """all routes on one state; exact unnormalised results -> one Coq case per site tuple"""
+              where_list=None, generic=True, gauged=True, max_k=3, coq_budget=None, only_exact=False,
+              cube=False, legacy=True, scale_exp=None):
+    """all routes on one state; exact unnormalised results -> one Coq case per site tuple.
+    cube: also the option-cube routes; legacy=False: only those; scale_exp: the state's (integer) exponent, the Coq
+    case then compares with (10^scale_exp)^2 x the model's values on the tensors"""
     rng = ctx.rng
     if coq_budget is None:
         coq_budget = ctx.n(60000, 400000)
     ref = Ref(tn)
-    if abs(ref.n2) < 0.5:
+    if abs(complex(np.vdot(ref.psi0, ref.psi0))) < (0.5 if not Checker.expo(ref) else 1e-30):
         ctx.bump("zero_state_skipped")
         return
     sdesc = state_desc(kind, ref, {"id": sid})
@@ -736,20 +903,25 @@ def run_state(ctx, cases, kind, tn, sid, extra_routes=None, ring=False, n_where=
             ctx.bump("where_order:" + ("ascending" if ix == sorted(ix) else "descending" if ix == sorted(ix, reverse=True) else "mixed"))
         rdms, norms, exps_by_op = [], [], []
         G0, _ = rand_op(rng, ref, where)
-        if generic:
+        if generic and legacy:
             chk.run(flt(generic_rdm_routes(tn, where, nsites, compressed=(kind != "mps"))), where, G0,
                     {"rdms": rdms, "norms": norms, "exps": []}, raise_key=raise_key)
         for k in range(n_ops):
             G, gk = (G0, "full") if k == 0 else rand_op(rng, ref, where)
             ctx.bump("operator:" + gk)
             ex = {"rdms": rdms, "norms": norms, "exps": []}
-            if generic:
+            if generic and legacy:
                 chk.run(flt(generic_exp_routes(tn, G, where, nsites, ref.sites, ring=ring, plain=(kind in ("graph", "ring", "multi")))),
                         where, G, ex, raise_key=raise_key)
-            if extra_routes:
+            if extra_routes and legacy:
                 chk.run(extra_routes(tn, G, where), where, G, ex, raise_key=raise_key)
-            if ref_g is not None and k == 0 and generic:
+            if ref_g is not None and k == 0 and generic and legacy:
                 chk.run(gauged_routes(tn_g, gauges, G, where, nsites, ref.sites), where, G, None, ref=ref_g, raise_key=raise_key)
+            if cube and k == 0:
+                chk.run(cube_routes(tn, G, where, nsites, ref.sites, ring=ring), where, G, ex, raise_key=raise_key)
+                if ref_g is not None:
+                    chk.run(cube_routes(tn_g, G, where, nsites, ref.sites, gauges=gauges, ring=ring), where, G, None,
+                            ref=ref_g, raise_key=raise_key)
             exps_by_op.append((G, ex["exps"]))
         state_norms += norms
         if rdms or any(v for _, v in exps_by_op):
@@ -758,8 +930,10 @@ def run_state(ctx, cases, kind, tn, sid, extra_routes=None, ring=False, n_where=
         pre = coq_cost(ref) > coq_budget
         n_vals = len(state_norms) + sum(len(ex["rdms"]) + sum(len(v) for _, v in ex["exps_by_op"]) for _, ex in items)
         cases.add({"state": sdesc, "wheres": [[str(s) for s in w] for w, _ in items], "n_values": n_vals,
-                   "ref": ref, "items": items, "norms": state_norms, "pre": pre},
-                  coq_state_case(ref, state_norms, items, predensified=pre))
+                   "ref": ref, "items": items, "norms": state_norms, "pre": pre, "scale_exp": scale_exp},
+                  coq_state_case(ref, state_norms, items, predensified=pre, scale_exp=scale_exp))
+        if scale_exp is not None:
+            ctx.bump("coq_state:scaled_by_exponent")
         ctx.bump("coq_values", n_vals)
         ctx.bump("coq_site_tuples", len(items))
         ctx.bump("coq_state:" + ("predensified" if pre else "network"))
@@ -820,6 +994,46 @@ def stage_states(ctx, cases):
         wl = list(dict.fromkeys(wl))
         run_state(ctx, cases, f"peps{Lx}x{Ly}", p, f"peps_{n}", extra_routes=peps_routes, where_list=wl,
                   raise_key=peps_key, generic=(Lx * Ly <= 6), gauged=(Lx * Ly <= 6), n_ops=2)
+
+
+def stage_option_cube(ctx, cases):
+    """EVERY normalisation mode x backend x combine x gauges of the cluster / loop-expansion APIs, and every legacy
+    route, on states whose scale is held in the tensors, in a positive / negative `exponent`, or in both.
+    Reference: plain numpy on the dense state (10**exponent x einsum of the dumped tensors) - a test, not a theorem;
+    the exactly representable unnormalised results (integer tensors, integer exponent) also go to Coq
+    (check_state_scaled: (10^k)^2 x the model's value on the tensors, justified by C13_scaled_state_*)."""
+    rng = ctx.rng
+
+    def mps_key(name, e):
+        return None
+
+    def peps_key(name, e):
+        if isinstance(e, KeyError) and name.startswith("peps.compute_local_expectation"):
+            return "tn2d.compute_local_expectation:pair_not_ascending:KeyError"
+        return None
+
+    fams = []
+    for n in range(ctx.n(1, 4)):
+        fams.append(("graph", gen_graph(rng, n=rng.randint(4, 5))[0], {}))
+    for n in range(ctx.n(1, 3)):
+        fams.append(("ring", gen_graph(rng, n=rng.randint(3, 5), ring=True)[0], dict(ring=True, max_k=2)))
+    for n in range(ctx.n(1, 3)):
+        fams.append(("mps", gen_mps(rng, L=rng.randint(3, 5)), dict(extra_routes=mps_extra, raise_key=mps_key)))
+    for n, (Lx, Ly) in enumerate([(2, 2)] if ctx.quick else [(2, 2), (2, 3), (3, 2)]):
+        fams.append((f"peps{Lx}x{Ly}", gen_peps(rng, Lx, Ly), dict(extra_routes=peps_routes, raise_key=peps_key)))
+    for n, (kind, tn, kw) in enumerate(fams):
+        sid = f"cube_{kind}_{n}"
+        sites = list(tn.sites)
+        a, b = rng.sample(sites, 2)
+        if kind.startswith("peps"):  # 2D plaquette routes: pairs are keyed in either order, single sites as (i, j)
+            wl = [(a, b), (rng.choice(sites),)]
+        else:
+            wl = [(a, b), (rng.choice(sites),)]
+        for label, net, k in scale_variants(rng, tn, ctx.quick, sid):
+            ctx.bump("scale:" + label)
+            run_state(ctx, cases, kind, net, f"{sid}_{label}", where_list=wl, n_ops=1, cube=True,
+                      legacy=(label != "tensors"),  # the legacy routes on exponent-free states are stage_states
+                      scale_exp=k, coq_budget=None if (label in ("tensors", "exponent_int")) else 0, **kw)
 
 
 def stage_3d(ctx, cases):
@@ -1293,7 +1507,8 @@ def run_coq(ctx, cases, name):
         d = cases.info[c]
         for where, ex in d["items"]:
             cid = len(loc) + 1
-            loc.append((cid, coq_case(d["ref"], where, {**ex, "norms": d["norms"]}, predensified=d.get("pre", False))))
+            loc.append((cid, coq_case(d["ref"], where, {**ex, "norms": d["norms"]}, predensified=d.get("pre", False),
+                                      scale_exp=d.get("scale_exp"))))
             lookup[cid] = (d, where)
     bad = []
     if loc:
@@ -1318,6 +1533,7 @@ def correspondence_and_oracle(ctx):
     ctx.stage(lambda c: stage_states(c, cases))
     ctx.stage(lambda c: stage_align_apply(c, cases))
     ctx.stage(lambda c: stage_3d(c, cases))
+    ctx.stage(lambda c: stage_option_cube(c, cases))
     ctx.stage(stage_documented_forms)
     ctx.stage(stage_info_reuse)
     ctx.stage(stage_repeated_queries)
